@@ -48,10 +48,21 @@ def run(ctx):
         if False:
             ctx.event('schema-skipped-too-large')
             continue
+        rival = None
+        lvs.REENTER['checker'] = None
+        if not schema.get('default_fns') and si % 4 == 2:
+            FNS_LIB = lvs.reentrant_fns(FNS_LIB)
         try:
             model = compile_lvs(text)
+            if si % 2:
+                model = compile_lvs(text)       # the same text compiled a second time in this process: the second result is used
+                ctx.event('schema-text-compiled-twice')
             checker = Checker(model, FNS_LIB)
             loaded = Checker.load(checker.save(), FNS_LIB)
+            if not schema.get('default_fns') and si % 3 == 0:
+                # another checker of the same process (created later, asked first) whose functions carry the same names and answer otherwise
+                rival = Checker(compile_lvs(text), lvs.rival_fns(lvs.USER_FNS))
+                ctx.event('rival-checker-with-same-named-functions')
         except (SemanticError, LvsModelError) as e:
             # whether clean schemas are accepted is C13's clause; here a schema without a compiled model cannot be judged
             ctx.event('schema-rejected-not-judged')
@@ -124,6 +135,9 @@ def run(ctx):
             ctx.event('template-probe-pairs', len(probes))
         pairs = probes + targeted + pairs
         signed_rules = {r['name'] for r in schema['rules'] if r['signers']}
+        if not schema.get('default_fns') and si % 4 == 2:
+            lvs.REENTER.update(checker=checker, names=[n for n in matching[:3]] or [[]])
+            ctx.event('schema-with-functions-that-re-enter-their-checker')
         budget = 6000 * (len(model.nodes) + 1) * (L + 2)
         nfail = 0
         t_schema = time.time()
@@ -132,6 +146,11 @@ def run(ctx):
                 ctx.event('schema-abandoned-slow')       # generator guard only
                 break
             exp = ref.check(pkt, key)
+            if rival is not None and pi % 2 == 0:
+                try:
+                    rival.check(pkt if pkt else '/', key if key else '/')
+                except Exception:   # noqa
+                    pass
             variants = [(pkt, key, '')]
             if pi % 7 == 0:
                 variants.append((pkt + [DIGEST], key, 'pkt+digest'))
@@ -170,6 +189,10 @@ def run(ctx):
                         ctx.report(mech, f'{label}: check({wn["pkt"]}, {wn["key"]}) = {got}, schema says {exp}', wn if nfail <= 3 else None)
             ctx.case((text, tuple(pkt), tuple(key)), nontrivial=any(r in signed_rules for r, b in ref.match(pkt)),
                      sample=dict(w, pkt=rc.name_to_uri(pkt, canonical=True), key=rc.name_to_uri(key, canonical=True), expected=exp) if exp and ctx.evaluations % 9000 == 1 else None)
+    lvs.REENTER['checker'] = None
+    ctx.extra['user_function_calls_that_re_entered_the_checker'] = lvs.REENTER['calls']
+    for k in ('schema-text-compiled-twice', 'rival-checker-with-same-named-functions', 'schema-with-functions-that-re-enter-their-checker'):
+        ctx.need_event(k)
     ctx.need_class('template-schema')
     ctx.need_event('model-without-symbol-table')
     ctx.need_event('schema', 30)
